@@ -98,10 +98,13 @@ class C19(Prop):
         from .. import hash_extract as H
         from ..core import REPO_SRC
 
+        self.ASSUMPTIONS = list(type(self).ASSUMPTIONS)
         try:
             self.static = H.hash_problems(REPO_SRC)
+            self.ASSUMPTIONS += ["static reading of __hash__: " + m + " — correspondence only" for m in H.hash_unreadable(REPO_SRC)]
         except Exception as e:
-            self.static = [f"cannot read the __hash__ methods: {type(e).__name__}: {e}"]
+            self.static = []
+            self.ASSUMPTIONS.append(f"static reading of __hash__ failed ({type(e).__name__}: {e}) — correspondence only")
 
     def _hash_case(self, rng):
         cls = rng.choice(["Term", "Tag", "Feature", "Note", "SoundEvent", "SoundEventAnnotation", "SoundEventPrediction", "ClipPrediction"])
